@@ -1,5 +1,5 @@
 (* C17: the configuration layer -- schema validation and the order of construction (Model/Schema.v), for ARBITRARY tables *)
-From Coq Require Import ZArith List Bool Lia.
+From Coq Require Import ZArith List Bool Lia Permutation.
 From GV.Model Require Import Factory Schema.
 From GV.Lemmas Require Import C17L.
 Import ListNotations.
@@ -304,5 +304,23 @@ Proof.
   2:{ intros e [<-|[]]. cbn [fst]. intros Hin. apply NA. apply in_or_app. left. exact Hin. }
   destruct (check_required kw (row_req r)); [|reflexivity]. unfold select. rewrite filter_app. cbn [filter fst].
   destruct (memz s (row_req r ++ row_opt r)) eqn:M; [apply memz_In in M; contradiction|]. rewrite app_nil_r. reflexivity.
+Qed.
+
+(* ---- the order in which a dictionary lists its entries is irrelevant to validation ---- *)
+Lemma forallb_perm {A} (f : A -> bool) l l' : Permutation l l' -> forallb f l = forallb f l'.
+Proof.
+  induction 1 as [|x l l' _ IH|x y l|l l' l'' _ IH1 _ IH2]; cbn [forallb]; [reflexivity | rewrite IH; reflexivity | | congruence].
+  rewrite !andb_assoc, (andb_comm (f y) (f x)). reflexivity.
+Qed.
+Lemma existsb_perm {A} (f : A -> bool) l l' : Permutation l l' -> existsb f l = existsb f l'.
+Proof.
+  induction 1 as [|x l l' _ IH|x y l|l l' l'' _ IH1 _ IH2]; cbn [existsb]; [reflexivity | rewrite IH; reflexivity | | congruence].
+  rewrite !orb_assoc, (orb_comm (f y) (f x)). reflexivity.
+Qed.
+Theorem valid_dict_perm k req opt wild kv kv' : t_dict T k = Some (req, opt, wild) -> Permutation kv kv' ->
+  valid T k (CDict kv) = valid T k (CDict kv').
+Proof.
+  intros H P. rewrite !(valid_dict _ _ _ _ _ H). f_equal; [|apply forallb_perm; exact P].
+  apply forallb_ext_in. intros rk _. unfold has_key. apply existsb_perm. exact P.
 Qed.
 End S.
